@@ -358,7 +358,9 @@ func rv(a int, xs ...int) (int, int) { t := 0; for _, x := range xs { t += x }; 
 type T struct { A int }; func (t *T) Get(k int) (int, int) { return t.A, k }; obj := &T{A: 9}; mv := obj.Get
 func fwd3(a int, s string) (int, string, float64) { h := func(x int) int { return x + 1 }; _ = h(1); return r3(a, s) }
 func fwdv(a int, xs ...int) (int, int) { note := func() { }; note(); return rv(a, xs...) }
-func fwd1(a int) int { pair := func() (int, int) { return 1, 2 }; p, q := pair(); _, _ = p, q; return r1(a) }`
+func fwd1(a int) int { pair := func() (int, int) { return 1, 2 }; p, q := pair(); _, _ = p, q; return r1(a) }
+func cnt(xs ...any) int { return len(xs) }
+func cntk(k string, xs ...any) int { return len(k)*100 + len(xs) }`
 
 // c19StructCase: instances built with NewStruct, with and without initialisers, next to script-made ones: every
 // instance has its own fields; a field reads the value given for it, otherwise the zero value.
@@ -508,6 +510,21 @@ func c19EchoCase(seed int64, idx int) (string, c19Case) {
 	m.VM.Set("builtin.vrest", goatlang.NewFunc(2, 2, func(v *goatlang.VM, args []goatlang.Value, vargs ...goatlang.Value) []goatlang.Value {
 		return vargs[:2]
 	}))
+	// natives without parameters as the very first thing a fresh VM runs (the operand stack is still empty)
+	{
+		m0 := core.NewMachine(core.VMOpts{Optimize: rng.Bool(), Obs: core.NewObs(core.SmallBudget, false, nil)})
+		calls := 0
+		m0.VM.Set("builtin.zero1", goatlang.NewFunc(0, 1, func(v *goatlang.VM) goatlang.Value { calls++; return goatlang.Int(40 + calls) }))
+		m0.VM.Set("builtin.zero0", goatlang.NewFunc(0, 0, func(v *goatlang.VM) { calls += 10 }))
+		m0.VM.Set("builtin.zeroN", goatlang.NewFunc(0, 1, func(v *goatlang.VM, args []goatlang.Value) goatlang.Value { calls += 100; return goatlang.Int(len(args)) }))
+		first := core.Pick(rng, []string{"r := zero1()\nr", "zero0()\nr := zero1()\nr", "r := zeroN() + zero1()\nr", "zero1()\nr := zero1()\nr"})
+		o := m0.Eval(nil, first)
+		want := map[string]string{"r := zero1()\nr": "41", "zero0()\nr := zero1()\nr": "51", "r := zeroN() + zero1()\nr": "141", "zero1()\nr := zero1()\nr": "42"}[first]
+		if o.Failed() || len(o.Rets) != 1 || o.Rets[0] != want {
+			cs.Script = first
+			return fmt.Sprintf("natives without parameters as the first thing a fresh VM runs: got %v %s, expected %s", o.Rets, core.ErrFirstLine(o.Err)+o.Panic, want), cs
+		}
+	}
 	a, b, c := rng.Intn(900)+1, rng.Intn(900)+1, rng.Intn(900)+1
 	src := fmt.Sprintf("func run(k int) []any {\n\tl1 := k + 1\n\ta, b := echo2(%d, \"x\")\n\tc, d := tail(%d, %d, %d)\n\te, f := swap(%d, %d)\n\tg, h := vfix(%d, %d, %d, %d)\n\ti, j := vrest(%d, %d, %d)\n\tp, q, r := echo3(%d, 2.5, true)\n\tl2 := l1 + head(%d, %d, %d)\n\treturn []any{a, b, c, d, e, f, g, h, i, j, p, q, r, l1, l2}\n}\nout := run(%d)\nout",
 		a, a, b, c, a, b, a, b, c, a, a, b, c, b, a, b, c, c)
@@ -560,6 +577,12 @@ func c19CallCase(seed int64, idx int) (string, c19Case) {
 		{"main.fwd3", []goatlang.Value{goatlang.Int(a), goatlang.String("s")}, []string{fmt.Sprint(a * 2), "s!", "1.5"}},
 		{"main.fwdv", []goatlang.Value{goatlang.Int(a), goatlang.Int(2), goatlang.Int(3)}, []string{fmt.Sprint(a), "5"}},
 		{"main.fwd1", []goatlang.Value{goatlang.Int(a)}, []string{fmt.Sprint(a + 1)}},
+		// a slice handed over as the only surplus parameter is one argument (the host has no spread form)
+		{"main.cnt", []goatlang.Value{goatlang.NewSlice(goatlang.TypeNil, []goatlang.Value{goatlang.Int(1), goatlang.Int(2), goatlang.Int(3)})}, []string{"1"}},
+		{"main.cnt", []goatlang.Value{goatlang.Nil()}, []string{"1"}},
+		{"main.cnt", []goatlang.Value{goatlang.NewSlice(goatlang.TypeNil, nil), goatlang.NewSlice(goatlang.TypeInt32, []goatlang.Value{goatlang.Int(1)})}, []string{"2"}},
+		{"main.cntk", []goatlang.Value{goatlang.String("ab"), goatlang.NewSlice(goatlang.TypeNil, []goatlang.Value{goatlang.Int(a), goatlang.String("s")})}, []string{"201"}},
+		{"main.cntk", []goatlang.Value{goatlang.String("ab")}, []string{"200"}},
 	}
 	f := fns[rng.Intn(len(fns))]
 	for x := 0; x <= len(f.want); x++ {
